@@ -2,6 +2,7 @@
   C13 — Requests and responses pass through unaltered.
 -/
 import KamalProxy.Model.Rewrite
+import KamalProxy.Model.Faults
 namespace KamalProxy.C13
 open KamalProxy KamalProxy.Url KamalProxy.Rewrite
 
@@ -283,5 +284,14 @@ example : parseFwd "/app?" (some "/app") = some "/?" := by decide
 -- from the decoded path, which also loses the encoded slash
 example : parseFwd "/a%2Fb/c d" none = some "/a/b/c%20d" := by decide
 example : parseFwd "/%61pp/x" (some "/app") = some "/x" := by decide  -- prefix not spelled literally: decoded form forwarded
+
+/-- The target's final status and body length reach the client unchanged whether or not an informational
+    response (`103 Early Hints`) preceded them, with response buffering on or off, whatever the service's
+    error-page and timeout settings; the access log records the same status and length. -/
+theorem C13_status_unchanged (s : Faults.Setup) (st n : Nat) :
+    (Faults.outcome s (.ok st n)).client = .response st n ∧
+    (Faults.outcome s (.early st n)).client = .response st n ∧
+    (Faults.outcome s (.early st n)).logStatus = st ∧ (Faults.outcome s (.early st n)).logBytes = some n := by
+  simp [Faults.outcome]
 
 end KamalProxy.C13
